@@ -184,6 +184,7 @@ def run(ctx):
     thread_pass(ctx)
     pressure_pass(ctx)
     called_mv_pass(ctx)
+    derived_operand_pass(ctx)
     out = ctx.drive(lines)
     if out is not None:
         nb = 0
@@ -367,6 +368,103 @@ def called_mv_pass(ctx):
                 continue
             if set(got) != set(exp) or any(abs(got[k] - exp[k]) > 1e-9 for k in exp):
                 ctx.violation('history-dependent', case, exp, got, key='history:called-mv')
+
+
+def derived_operand_pass(ctx):
+    """operands derived from a multivector that already has a history (`x.map(f)`, `x[i]`, `x.filter(f)`, `x.grade(..)` after x
+    was called / multiplied / added): the operator, registered function or call evaluated on the derived multivector returns
+    what it returns on a freshly created algebra where the source had no history; the source itself keeps its coefficients"""
+    import sympy
+    import numpy as np
+    from kingdon import Algebra
+    t = sympy.Symbol('t')
+
+    def sc_map_called(alg, h):
+        x = alg.vector(name='a')
+        if h: x(1, 2, 3)
+        return x.map(lambda v: 2 * v)(1, 2, 3)
+    def sc_map_num_to_sym(alg, h):
+        x = alg.vector([1, 2, 3])
+        if h: x * x
+        y = x.map(lambda v: t * v)
+        return y ^ y
+    def sc_map_num_to_sym_gp(alg, h):
+        x = alg.vector([1, 2, 3])
+        if h: x + x
+        y = x.map(lambda v: t * v)
+        return y * y
+    def sc_map_sym_to_num(alg, h):
+        x = alg.vector(name='a')
+        if h: x + x
+        y = x.map(lambda v: 3)
+        return y * y
+    def sc_map_sym_to_sym(alg, h):
+        x = alg.vector(name='a')
+        if h: x(1, 2, 3); x * x
+        y = x.map(lambda v: v + t)
+        return y(1, 2, 3, 5) if len(y.free_symbols) == 4 else y
+    def sc_index(alg, h):
+        x = alg.vector(np.arange(6.0).reshape(3, 2) + 1)
+        if h: x * x
+        y = x[1]
+        return y * y
+    def sc_index_sym(alg, h):
+        x = alg.vector([[t, 2], [3, 4], [5, 6]])
+        if h: x * x
+        y = x[1]
+        return y | y
+    def sc_filter(alg, h):
+        x = alg.multivector(name='a')
+        if h: x(*range(1, 9)); x * x
+        y = x.filter(lambda v: str(v) in ('a1', 'a12'))
+        return y * y
+    def sc_grade(alg, h):
+        x = alg.multivector(name='a')
+        if h: x(*range(1, 9)); ~x
+        y = x.grade(1)
+        return y(1, 2, 3)
+    def sc_reg(alg, h):
+        x = alg.vector([1, 2, 3])
+        def f_body(a, b): return a * b + (a | b)
+        f = alg.register(f_body)
+        if h: f(x, x)
+        y = x.map(lambda v: v * t)
+        return f(y, y)
+    def sc_spell_accessor(alg, h):
+        x = alg.multivector(e1=1, e2=2, e123=5)
+        if h: x.e231; x.e21
+        return alg.multivector(e=x.e132, e1=x.e12)
+    def sc_spell_keyword(alg, h):
+        if h: alg.multivector(e231=1, e21=1)
+        return alg.multivector(e132=7, e12=3)
+    def sc_spell_blades(alg, h):
+        if h: alg.blades.e312; alg.blades['e13']
+        return alg.blades.e213 + alg.blades['e31']
+    def sc_spell_registered(alg, h):
+        def even_spelling(a): return a.e231 * a
+        def odd_spelling(a): return a.e132 * a
+        f_even = alg.register(even_spelling)
+        f_odd = alg.register(odd_spelling)
+        x = alg.multivector(e1=1, e2=2, e123=5)
+        if h: f_even(x)
+        return f_odd(x)
+    scenarios = [sc_spell_accessor, sc_spell_keyword, sc_spell_blades, sc_spell_registered, sc_map_called, sc_map_num_to_sym, sc_map_num_to_sym_gp, sc_map_sym_to_num, sc_map_sym_to_sym, sc_index, sc_index_sym,
+                 sc_filter, sc_grade, sc_reg]
+    def outcome(f, alg, h):
+        try:
+            r = f(alg, h)
+            return (tuple(int(k) for k in r.keys()), [str(sympy.simplify(sympy.sympify(v))) if not isinstance(v, np.ndarray) else v.tolist() for v in r.values()])
+        except Exception as ex:
+            return 'raises ' + type(ex).__name__
+    for wrapper in (None, ident):
+        for f in scenarios:
+            kw = {'wrapper': wrapper} if wrapper else {}
+            case = {'scenario': f.__name__, 'wrapper': bool(wrapper)}
+            ctx.case(case, tag='derived-operand')
+            fresh = outcome(f, Algebra(3, **kw), False)
+            hist = outcome(f, Algebra(3, **kw), True)
+            if fresh != hist:
+                ctx.violation('history-dependent', case, str(fresh)[:250], str(hist)[:250], key=f'history:derived-operand:{f.__name__}')
 
 
 def collision_search(ctx):
